@@ -267,10 +267,49 @@ def _short(x):
     return s if len(s) < 300 else s[:300] + '...'
 
 
+def game_from_file(rng, regions):
+    """The same cart obtained by loading a reference-written file: .p8 (also with sections in another order or with the map
+    section left out, as newer PICO-8 versions do for empty sections) or .p8.png.  -> (game, memory it must hold, source tag)"""
+    import io
+    from pico8.game.formatter.p8 import P8Formatter
+    from pico8.game.formatter.p8png import P8PNGFormatter
+    from .. import refcodec as rc
+    kind = rng.choice(('p8', 'p8_map_first', 'p8_no_map', 'p8_no_gff', 'png'))
+    regions = dict(regions)
+    if kind == 'png':
+        data = rc.write_p8png(regions, rc.raw_code_area(b'x=1'), 8)
+        return P8PNGFormatter.from_file(io.BytesIO(data)), regions, kind
+    regions['music'] = rc.music_mask(regions['music'])
+    if kind == 'p8':
+        data = rc.write_p8(regions, b'x=1\n', version=8)
+    elif kind == 'p8_map_first':
+        data = rc.write_p8(regions, b'x=1\n', version=8, order=('lua', 'map', 'gff', 'gfx', 'sfx', 'music'))
+    elif kind == 'p8_no_map':
+        regions['map'] = bytes(4096)       # an omitted section reads as the empty default (all zero for the map)
+        data = rc.write_p8(regions, b'x=1\n', version=8, omit=('map',))
+    else:
+        regions['gff'] = bytes(256)
+        data = rc.write_p8(regions, b'x=1\n', version=8, omit=('gff',))
+    return P8Formatter.from_file(io.BytesIO(data)), regions, kind
+
+
 def run_history(ctx, rng, nops):
     regions, mode = carts.random_regions(rng)
-    init = b''.join(regions[n] for n, _ in REGIONS)
-    g = carts.make_game(regions)
+    if rng.random() < 0.35:
+        try:
+            g, regions, src_kind = game_from_file(rng, regions)
+        except Exception as e:
+            ctx.violation('loading a reference-written cart failed: %r' % (e,), {'init': b'', 'ops': []})
+            return False
+        ctx.feature('game_loaded_from:' + src_kind)
+        init = b''.join(regions[n] for n, _ in REGIONS)
+        if carts.game_memory(g) != init:
+            ctx.violation('a cart loaded from a reference-written %s file does not hold the bytes the file encodes' % src_kind,
+                          {'init': init, 'ops': []})
+            return False
+    else:
+        init = b''.join(regions[n] for n, _ in REGIONS)
+        g = carts.make_game(regions)
     sh = Shadow(init)
     ctx.feature('init_' + mode)
     history = []
@@ -318,6 +357,9 @@ def gates(m, tier):
     for k in ('sprite_transparent', 'sprite_ragged', 'rect_spans_shared_boundary', 'cell_row_31', 'cell_row_32', 'cell_row_63'):
         if f.get(k, 0) < 10:
             missed.append('%s seen %d times' % (k, f.get(k, 0)))
+    for k in ('p8', 'p8_map_first', 'p8_no_map', 'p8_no_gff', 'png'):
+        if f.get('game_loaded_from:' + k, 0) < 3:
+            missed.append('histories on a game loaded from %s: %d' % (k, f.get('game_loaded_from:' + k, 0)))
     if f.get('histories_completed', 0) < 50:
         missed.append('only %d histories ran to completion' % f.get('histories_completed', 0))
     return missed
